@@ -1064,6 +1064,31 @@ func ruleCtxArmReturnsErr(c *Ctx, r *R, rels ...string) {
 						n++
 						ev := returnedValue(ret, len(ret.Results)-1)
 						good := isCtxErrAfterDone(ev)
+						// return c.waitExpired(ctx): a helper of the module, called inside the arm, every return of which is
+						// Err() of the context it was handed
+						if hc, ok := ev.(*ssa.Call); ok && !good && (hc.Block() == a.body || a.body.Dominates(hc.Block())) {
+							if cal := staticCallee(&hc.Call); cal != nil && cal.Blocks != nil && cal.Parent() == nil && c.inModule(cal) {
+								o := origin(cal)
+								all, any := true, false
+								instrs(o, func(_ *ssa.BasicBlock, _ int, in ssa.Instruction) {
+									hr, ok := in.(*ssa.Return)
+									if !ok || len(hr.Results) == 0 {
+										return
+									}
+									any = true
+									ec, ok := returnedValue(hr, len(hr.Results)-1).(*ssa.Call)
+									if !ok || !ec.Call.IsInvoke() || ec.Call.Method.Name() != "Err" {
+										all = false
+										return
+									}
+									p, isP := resolveVal(ec.Call.Value).(*ssa.Parameter)
+									if !isP || p.Parent() != o || !isContextType(p.Type()) {
+										all = false
+									}
+								})
+								good = all && any
+							}
+						}
 						// a wrapped ctx.Err() (fmt.Errorf("…: %w", ctx.Err())) still reports the context's end
 						if !good {
 							if call, ok := ev.(*ssa.Call); ok && !call.Call.IsInvoke() {
